@@ -483,7 +483,7 @@ def run_property(mod, tier, seed, jobs=None):
     )
     if harness_errors:
         for e in harness_errors[:3]:
-            print("HARNESS-ERROR", "\n".join(e.splitlines()[-14:]), file=sys.stderr)
+            print("HARNESS-ERROR", "\n".join(e.splitlines()[-30:]), file=sys.stderr)
         if exit_code == 0:
             exit_code = 2
     print(
